@@ -387,11 +387,17 @@ PURE_CALLS = {"len", "range", "list", "tuple", "zip", "enumerate", "sorted", "di
               "depends_on", "symvar", "is_equal", "str", "repr", "getattr", "type"}
 
 
+PURE_METHODS = {"numel", "nnz", "size1", "size2", "sparsity", "name", "dim", "keys", "values", "items", "get", "index", "count", "is_scalar", "is_symbolic", "is_constant",
+                "is_column", "is_row", "is_vector", "is_empty", "is_one", "is_zero", "size", "rows", "columns"}
+
+
 def _is_pure(v):
     """Expression without side effects whose value depends only on the names / attribute paths it reads."""
     for n in ast.walk(v):
         if isinstance(n, ast.Call):
             f = n.func
+            if isinstance(f, ast.Attribute) and f.attr in PURE_METHODS and not n.keywords:
+                continue
             nm = f.id if isinstance(f, ast.Name) else (f.attr if isinstance(f, ast.Attribute) and isinstance(f.value, ast.Name) and f.value.id in ("ca", "casadi", "np", "numpy") else None)
             if nm not in PURE_CALLS:
                 return False
